@@ -192,7 +192,6 @@ func (p *conn) handshake() error {
 		_ = p.c.Close()
 		return mangos.ErrBadProto
 	}
-	p.open = true
 	return nil
 }
 
